@@ -43,7 +43,7 @@ PROP = dict(
         "the sender has no vesting lock on the converted denomination (spendable = balance)",
         "token side of convert_ok_exact is about the balance the path compares AS ANSWERED by the contract; for a contract that lies consistently only that is guaranteed (DESIGN.md C04 label). On the mint/burnCoins paths (module-owned pair, contract deployed by the module itself) the code looks at neither return data nor logs",
         "round trip: honest contract, non-negative balances, the coin-side sender is not the module account, and the way back passes the gate",
-        "a MsgConvertCoin names the pair's own denomination. The handler also resolves a token string of 40 hex digits (a contract address without 0x, a syntactically valid bank denomination when it starts with a-f) to the pair BY ADDRESS and then escrows/burns the message's own denomination instead of pair.Denom; no transaction of the chain can mint such a denomination, so the case is unreachable and excluded from the default generator (opt-in: VERIF_C04_LOOKALIKE=1; model: exec_named, theorem C04_convert_ok_exact_named, Example convert_ok_exact_without_own_denom_refuted)",
+        "a MsgConvertCoin that spells its denomination like a registered pair's contract address (40 hex digits, valid as a bank denomination when it starts with a-f) resolves to that pair BY ADDRESS; since the repair of finding F6 the handler refuses it (guard msg.Coin.Denom != pair.Denom; model: exec_named, theorems C04_convert_ok_exact_named and C04_lookalike_denomination_refused); stream x of the harness mints such a coin and checks the refusal on every run (VERIF_C04_LOOKALIKE=0 switches it off)",
         "`return nil, nil` for a selfdestructed contract (pair removed, nothing converted) is class pair-removed, monitored for leaving both ledgers unchanged; it is not counted as a successful conversion",
     ],
 )
